@@ -726,14 +726,14 @@ def _container_universe(det):
 
 
 def m_interval_complement_disjoint(case, v):
-    """Interval::set_complement(Interval) when the two intervals are strictly disjoint"""
+    """Interval::set_complement(Interval) when the two intervals are disjoint or only touch in an end point"""
     det = _det(v)
     if not _reaches_complement(det):
         return False
     iv = _intervals(det.get("operands") or [])
     for i in range(len(iv)):
         for j in range(len(iv)):
-            if i != j and iv[i][1] < iv[j][0]:
+            if i != j and iv[i][1] <= iv[j][0]:
                 return True
     return False
 
